@@ -117,15 +117,23 @@ func (q *Queue) Close() {
 
 // End is the connection an honest endpoint sees: it reads from In and writes to Out.  Reader, when set,
 // replaces In (the man in the middle serving frames on demand in the stream phase).
+// Seg > 0 makes the carrier fragment: one Read returns at most Seg bytes (a TCP connection may return any
+// non-empty prefix of what is pending; io.Pipe-like transports that hand over every Write whole hide that).
 type End struct {
 	In     *Queue
 	Out    *Queue
 	Reader io.Reader
+	Seg    int
+	Reads  int // underlying Reads served
 }
 
 func NewEnd() *End { return &End{In: NewQueue(), Out: NewQueue()} }
 
 func (e *End) Read(p []byte) (int, error) {
+	e.Reads++
+	if e.Seg > 0 && len(p) > e.Seg {
+		p = p[:e.Seg]
+	}
 	if e.Reader != nil {
 		return e.Reader.Read(p)
 	}
